@@ -64,11 +64,11 @@ def Bal (m : Model α) : Prop := ∀ k, m.live k = true ↔ 0 < m.cnt k
 
 abbrev RefEntry := List Nat × List Nat × List Nat
 
+/-- the leaves a constraint references, as keys -/
+def refKeys (e : RefEntry) : List LeafKey := e.1.map .var ++ e.2.1.map .param ++ e.2.2.map .flt
+
 /-- how often one constraint's reference lists mention a leaf (0 or 1 for the `OrderedSet`s of the code) -/
-def mc (e : RefEntry) : LeafKey → Nat
-  | .var i => e.1.count i
-  | .param i => e.2.1.count i
-  | .flt f => e.2.2.count f
+def mc (e : RefEntry) (k : LeafKey) : Nat := (refKeys e).count k
 
 def refsOf (r : List (Nat × RefEntry)) (k : LeafKey) : Nat := (r.map fun p => mc p.2 k).sum
 
@@ -217,5 +217,392 @@ theorem incFloat_spec (m : Model α) (f : Nat) (hb : Bal m) :
       · simp [hk]
 
 end Inc
+
+
+/-! ### decrements -/
+
+section Dec
+variable {α : Type} (O : Ops α)
+
+theorem decVar_spec (m : Model α) (i : Nat) (hb : Bal m) (h1 : 1 ≤ m.cnt (.var i)) :
+    Bal (m.decVar O i) ∧ (∀ k, (m.decVar O i).cnt k = m.cnt k - if k = .var i then 1 else 0) ∧
+    (m.decVar O i).referenced = m.referenced ∧ (m.decVar O i).conMap = m.conMap := by
+  have hlive : (m.varMap.lookup i).isSome = true := (hb (.var i)).mpr h1
+  obtain ⟨a, hl⟩ := Option.isSome_iff_exists.mp hlive
+  simp only [Model.decVar, hl]
+  by_cases hn : getCount m.refcounts (.var i) - 1 = 0
+  · rw [if_pos hn]
+    have hc1 : m.cnt (.var i) = 1 := by simp only [Model.cnt] at h1 ⊢; omega
+    refine ⟨?_, ?_, rfl, rfl⟩
+    · intro k
+      simp only [Model.cnt, getCount_delCount]
+      by_cases hk : k = .var i
+      · subst hk; simp [Model.live, lookup_filter_ne]
+      · simp only [hk, if_false]
+        have hbk := hb k
+        cases k with
+        | var j =>
+          have : j ≠ i := fun e => hk (by rw [e])
+          simpa [Model.live, Model.cnt, lookup_filter_ne, this] using hbk
+        | param j => simpa [Model.live, Model.cnt] using hbk
+        | flt f => simpa [Model.live, Model.cnt] using hbk
+    · intro k
+      simp only [Model.cnt, getCount_delCount]
+      by_cases hk : k = .var i
+      · subst hk; simp only [Model.cnt] at hc1; simp [hc1]
+      · simp [hk]
+  · rw [if_neg hn]
+    refine ⟨?_, ?_, rfl, rfl⟩
+    · intro k
+      simp only [Model.cnt, getCount_setCount]
+      by_cases hk : k = .var i
+      · subst hk
+        simp only [Model.live, hl, Option.isSome_some, if_true, true_iff]
+        omega
+      · simp only [hk, if_false]
+        have hbk := hb k
+        cases k <;> simpa [Model.live, Model.cnt] using hbk
+    · intro k
+      simp only [Model.cnt, getCount_setCount]
+      by_cases hk : k = .var i
+      · subst hk; simp
+      · simp [hk]
+
+theorem decParam_spec (m : Model α) (i : Nat) (hb : Bal m) (h1 : 1 ≤ m.cnt (.param i)) :
+    Bal (m.decParam O i) ∧ (∀ k, (m.decParam O i).cnt k = m.cnt k - if k = .param i then 1 else 0) ∧
+    (m.decParam O i).referenced = m.referenced ∧ (m.decParam O i).conMap = m.conMap := by
+  have hlive : (m.paramMap.lookup i).isSome = true := (hb (.param i)).mpr h1
+  obtain ⟨a, hl⟩ := Option.isSome_iff_exists.mp hlive
+  simp only [Model.decParam, hl]
+  by_cases hn : getCount m.refcounts (.param i) - 1 = 0
+  · rw [if_pos hn]
+    have hc1 : m.cnt (.param i) = 1 := by simp only [Model.cnt] at h1 ⊢; omega
+    refine ⟨?_, ?_, rfl, rfl⟩
+    · intro k
+      simp only [Model.cnt, getCount_delCount]
+      by_cases hk : k = .param i
+      · subst hk; simp [Model.live, lookup_filter_ne]
+      · simp only [hk, if_false]
+        have hbk := hb k
+        cases k with
+        | param j =>
+          have : j ≠ i := fun e => hk (by rw [e])
+          simpa [Model.live, Model.cnt, lookup_filter_ne, this] using hbk
+        | var j => simpa [Model.live, Model.cnt] using hbk
+        | flt f => simpa [Model.live, Model.cnt] using hbk
+    · intro k
+      simp only [Model.cnt, getCount_delCount]
+      by_cases hk : k = .param i
+      · subst hk; simp only [Model.cnt] at hc1; simp [hc1]
+      · simp [hk]
+  · rw [if_neg hn]
+    refine ⟨?_, ?_, rfl, rfl⟩
+    · intro k
+      simp only [Model.cnt, getCount_setCount]
+      by_cases hk : k = .param i
+      · subst hk
+        simp only [Model.live, hl, Option.isSome_some, if_true, true_iff]
+        omega
+      · simp only [hk, if_false]
+        have hbk := hb k
+        cases k <;> simpa [Model.live, Model.cnt] using hbk
+    · intro k
+      simp only [Model.cnt, getCount_setCount]
+      by_cases hk : k = .param i
+      · subst hk; simp
+      · simp [hk]
+
+theorem decFloat_spec (m : Model α) (f : Nat) (hb : Bal m) (h1 : 1 ≤ m.cnt (.flt f)) :
+    Bal (m.decFloat f) ∧ (∀ k, (m.decFloat f).cnt k = m.cnt k - if k = .flt f then 1 else 0) ∧
+    (m.decFloat f).referenced = m.referenced ∧ (m.decFloat f).conMap = m.conMap := by
+  have hlive : m.floatMap.contains f = true := (hb (.flt f)).mpr h1
+  have hlive' : f ∈ m.floatMap := by simpa using hlive
+  simp only [Model.decFloat]
+  by_cases hn : getCount m.refcounts (.flt f) - 1 = 0
+  · rw [if_pos hn]
+    have hc1 : m.cnt (.flt f) = 1 := by simp only [Model.cnt] at h1 ⊢; omega
+    refine ⟨?_, ?_, rfl, rfl⟩
+    · intro k
+      simp only [Model.cnt, getCount_delCount]
+      by_cases hk : k = .flt f
+      · subst hk; simp [Model.live]
+      · simp only [hk, if_false]
+        have hbk := hb k
+        cases k with
+        | flt j =>
+          have : j ≠ f := fun e => hk (by rw [e])
+          simpa [Model.live, Model.cnt, this] using hbk
+        | var j => simpa [Model.live, Model.cnt] using hbk
+        | param j => simpa [Model.live, Model.cnt] using hbk
+    · intro k
+      simp only [Model.cnt, getCount_delCount]
+      by_cases hk : k = .flt f
+      · subst hk; simp only [Model.cnt] at hc1; simp [hc1]
+      · simp [hk]
+  · rw [if_neg hn]
+    refine ⟨?_, ?_, rfl, rfl⟩
+    · intro k
+      simp only [Model.cnt, getCount_setCount]
+      by_cases hk : k = .flt f
+      · subst hk
+        simp only [Model.live, hlive, if_true, true_iff]
+        omega
+      · simp only [hk, if_false]
+        have hbk := hb k
+        cases k <;> simpa [Model.live, Model.cnt] using hbk
+    · intro k
+      simp only [Model.cnt, getCount_setCount]
+      by_cases hk : k = .flt f
+      · subst hk; simp
+      · simp [hk]
+
+/-- a run of decrements over a list of leaves of one kind (`K` = `.var`, `.param` or `.flt`) -/
+theorem foldl_dec (K : Nat → LeafKey) (g : Model α → Nat → Model α)
+    (hg : ∀ m i, Bal m → 1 ≤ m.cnt (K i) →
+      Bal (g m i) ∧ (∀ k, (g m i).cnt k = m.cnt k - if k = K i then 1 else 0) ∧
+      (g m i).referenced = m.referenced ∧ (g m i).conMap = m.conMap)
+    (vs : List Nat) (m : Model α) (hb : Bal m) (hc : ∀ k, (vs.map K).count k ≤ m.cnt k) :
+    Bal (vs.foldl g m) ∧ (∀ k, (vs.foldl g m).cnt k = m.cnt k - (vs.map K).count k) ∧
+    (vs.foldl g m).referenced = m.referenced ∧ (vs.foldl g m).conMap = m.conMap := by
+  induction vs generalizing m with
+  | nil => exact ⟨hb, by simp, rfl, rfl⟩
+  | cons x rest ih =>
+    have h1 : 1 ≤ m.cnt (K x) := by
+      have := hc (K x); simp only [List.map_cons, List.count_cons_self] at this; omega
+    obtain ⟨hb1, hc1, hr1, hm1⟩ := hg m x hb h1
+    have hc' : ∀ k, (rest.map K).count k ≤ (g m x).cnt k := by
+      intro k
+      have := hc k
+      rw [hc1 k]
+      simp only [List.map_cons, List.count_cons] at this
+      by_cases hk : k = K x
+      · subst hk; simp at this ⊢; omega
+      · have : (K x == k) = false := by simpa using fun e : K x = k => hk e.symm
+        simp_all
+    obtain ⟨hb2, hc2, hr2, hm2⟩ := ih (g m x) hb1 hc'
+    refine ⟨hb2, ?_, hr2.trans hr1, hm2.trans hm1⟩
+    intro k
+    rw [List.foldl_cons, hc2 k, hc1 k]
+    simp only [List.map_cons, List.count_cons]
+    by_cases hk : k = K x
+    · subst hk; simp; omega
+    · have : (K x == k) = false := by simpa using fun e : K x = k => hk e.symm
+      simp [hk, this]
+
+end Dec
+
+
+/-! ### the increment loops of `_register_constraint` -/
+
+section IncLoops
+variable {α : Type} (O : Ops α)
+
+theorem incVars_spec (vs addrs : List Nat) (m : Model α) (hb : Bal m) :
+    Bal (incVars O m vs addrs) ∧ (∀ k, (incVars O m vs addrs).cnt k = m.cnt k + (vs.map LeafKey.var).count k) ∧
+    (incVars O m vs addrs).referenced = m.referenced ∧ (incVars O m vs addrs).conMap = m.conMap := by
+  induction vs generalizing m addrs with
+  | nil => cases addrs <;> exact ⟨hb, by simp [incVars], rfl, rfl⟩
+  | cons x rest ih =>
+    have step : ∀ a, Bal (incVars O (m.incVar O x a).1 rest addrs.tail) ∧
+        (∀ k, (incVars O (m.incVar O x a).1 rest addrs.tail).cnt k = m.cnt k + ((x :: rest).map LeafKey.var).count k) ∧
+        (incVars O (m.incVar O x a).1 rest addrs.tail).referenced = m.referenced ∧
+        (incVars O (m.incVar O x a).1 rest addrs.tail).conMap = m.conMap := by
+      intro a
+      obtain ⟨hb1, hc1, hr1, hm1⟩ := incVar_spec O m x a hb
+      obtain ⟨hb2, hc2, hr2, hm2⟩ := ih addrs.tail _ hb1
+      refine ⟨hb2, ?_, hr2.trans hr1, hm2.trans hm1⟩
+      intro k
+      rw [hc2 k, hc1 k]
+      simp only [List.map_cons, List.count_cons]
+      by_cases hk : k = .var x
+      · subst hk; simp; omega
+      · have : (LeafKey.var x == k) = false := by simpa using fun e : LeafKey.var x = k => hk e.symm
+        simp [hk, this]
+    cases addrs with
+    | nil => simpa [incVars] using step 0
+    | cons a as => simpa [incVars] using step a
+
+theorem incParams_spec (vs addrs : List Nat) (m : Model α) (hb : Bal m) :
+    Bal (incParams O m vs addrs) ∧
+    (∀ k, (incParams O m vs addrs).cnt k = m.cnt k + (vs.map LeafKey.param).count k) ∧
+    (incParams O m vs addrs).referenced = m.referenced ∧ (incParams O m vs addrs).conMap = m.conMap := by
+  induction vs generalizing m addrs with
+  | nil => cases addrs <;> exact ⟨hb, by simp [incParams], rfl, rfl⟩
+  | cons x rest ih =>
+    have step : ∀ a, Bal (incParams O (m.incParam O x a).1 rest addrs.tail) ∧
+        (∀ k, (incParams O (m.incParam O x a).1 rest addrs.tail).cnt k =
+          m.cnt k + ((x :: rest).map LeafKey.param).count k) ∧
+        (incParams O (m.incParam O x a).1 rest addrs.tail).referenced = m.referenced ∧
+        (incParams O (m.incParam O x a).1 rest addrs.tail).conMap = m.conMap := by
+      intro a
+      obtain ⟨hb1, hc1, hr1, hm1⟩ := incParam_spec O m x a hb
+      obtain ⟨hb2, hc2, hr2, hm2⟩ := ih addrs.tail _ hb1
+      refine ⟨hb2, ?_, hr2.trans hr1, hm2.trans hm1⟩
+      intro k
+      rw [hc2 k, hc1 k]
+      simp only [List.map_cons, List.count_cons]
+      by_cases hk : k = .param x
+      · subst hk; simp; omega
+      · have : (LeafKey.param x == k) = false := by simpa using fun e : LeafKey.param x = k => hk e.symm
+        simp [hk, this]
+    cases addrs with
+    | nil => simpa [incParams] using step 0
+    | cons a as => simpa [incParams] using step a
+
+theorem incFloats_spec (fs : List Nat) (m : Model α) (hb : Bal m) :
+    (incFloats Model.incFloat m fs).2 = .ok ∧ Bal (incFloats Model.incFloat m fs).1 ∧
+    (∀ k, (incFloats Model.incFloat m fs).1.cnt k = m.cnt k + (fs.map LeafKey.flt).count k) ∧
+    (incFloats Model.incFloat m fs).1.referenced = m.referenced ∧
+    (incFloats Model.incFloat m fs).1.conMap = m.conMap := by
+  induction fs generalizing m with
+  | nil => exact ⟨rfl, hb, by simp [incFloats], rfl, rfl⟩
+  | cons x rest ih =>
+    obtain ⟨ho, hb1, hc1, hr1, hm1⟩ := incFloat_spec m x hb
+    obtain ⟨ho2, hb2, hc2, hr2, hm2⟩ := ih _ hb1
+    have hstep : incFloats Model.incFloat m (x :: rest) = incFloats Model.incFloat (m.incFloat x).1 rest := by
+      have : m.incFloat x = ((m.incFloat x).1, Out.ok) := Prod.ext rfl ho
+      rw [incFloats, this]
+    rw [hstep]
+    refine ⟨ho2, hb2, ?_, hr2.trans hr1, hm2.trans hm1⟩
+    intro k
+    rw [hc2 k, hc1 k]
+    simp only [List.map_cons, List.count_cons]
+    by_cases hk : k = .flt x
+    · subst hk; simp; omega
+    · have : (LeafKey.flt x == k) = false := by simpa using fun e : LeafKey.flt x = k => hk e.symm
+      simp [hk, this]
+
+end IncLoops
+
+/-! ### the invariant -/
+
+theorem refsOf_cons (id : Nat) (e : RefEntry) (r : List (Nat × RefEntry)) (k : LeafKey) :
+    refsOf ((id, e) :: r) k = mc e k + refsOf r k := by
+  simp [refsOf]
+
+theorem filter_ne_of_not_mem (r : List (Nat × RefEntry)) (id : Nat) (h : id ∉ r.map (·.1)) :
+    r.filter (fun p => p.1 != id) = r := by
+  induction r with
+  | nil => rfl
+  | cons p r ih =>
+    simp only [List.map_cons, List.mem_cons, not_or] at h
+    have : (p.1 != id) = true := by simpa using fun e : p.1 = id => h.1 e.symm
+    simp [List.filter_cons, this, ih h.2]
+
+theorem refsOf_filter (r : List (Nat × RefEntry)) (id : Nat) (e : RefEntry) (hnd : (r.map (·.1)).Nodup)
+    (hl : r.lookup id = some e) (k : LeafKey) :
+    refsOf (r.filter (fun p => p.1 != id)) k + mc e k = refsOf r k := by
+  induction r with
+  | nil => simp at hl
+  | cons p r ih =>
+    obtain ⟨a, e'⟩ := p
+    simp only [List.map_cons, List.nodup_cons] at hnd
+    by_cases ha : a = id
+    · subst ha
+      simp only [List.lookup_cons, beq_self_eq_true, Option.some.injEq] at hl
+      subst hl
+      simp only [List.filter_cons, bne_self_eq_false, Bool.false_eq_true, if_false]
+      rw [filter_ne_of_not_mem r a hnd.1, refsOf_cons]
+      omega
+    · have hb : (id == a) = false := by simpa using fun e : id = a => ha e.symm
+      have hb' : (a != id) = true := by simpa using ha
+      simp only [List.lookup_cons, hb] at hl
+      simp only [List.filter_cons, hb', if_true, refsOf_cons]
+      have := ih hnd.2 hl
+      omega
+
+/-- reference counts = number of mentions by registered constraints; C object ⇔ positive count; constraint identities
+are distinct -/
+structure Inv (m : Model α) : Prop where
+  bal : Bal m
+  counts : ∀ k, m.cnt k = refsOf m.referenced k
+  ids : (m.referenced.map (·.1)).Nodup
+
+theorem Inv.empty : Inv ({} : Model α) where
+  bal := by intro k; cases k <;> simp [Model.live, Model.cnt, getCount]
+  counts := by intro k; simp [Model.cnt, getCount, refsOf]
+  ids := by simp
+
+section Ops
+variable {α : Type} (O : Ops α)
+
+theorem register_spec (m : Model α) (c : ConSpec) (conAddr : Nat) (varAddrs paramAddrs : List Nat) (hb : Bal m) :
+    (m.register O Model.incFloat c conAddr varAddrs paramAddrs).2 = .ok ∧
+    Bal (m.register O Model.incFloat c conAddr varAddrs paramAddrs).1 ∧
+    (∀ k, (m.register O Model.incFloat c conAddr varAddrs paramAddrs).1.cnt k =
+      m.cnt k + mc (c.vars, c.params, c.floats) k) ∧
+    (m.register O Model.incFloat c conAddr varAddrs paramAddrs).1.referenced =
+      (c.id, (c.vars, c.params, c.floats)) :: m.referenced := by
+  let m0 : Model α := { m with conMap := (c.id, (conAddr, c.conditional)) :: m.conMap }
+  have hb0 : Bal m0 := hb
+  obtain ⟨hb1, hc1, hr1, _⟩ := incVars_spec O c.vars varAddrs m0 hb0
+  obtain ⟨hb2, hc2, hr2, _⟩ := incParams_spec O c.params paramAddrs _ hb1
+  obtain ⟨ho3, hb3, hc3, hr3, _⟩ := incFloats_spec c.floats _ hb2
+  have hpair : incFloats Model.incFloat (incParams O (incVars O m0 c.vars varAddrs) c.params paramAddrs) c.floats =
+      ((incFloats Model.incFloat (incParams O (incVars O m0 c.vars varAddrs) c.params paramAddrs) c.floats).1,
+        Out.ok) := Prod.ext rfl ho3
+  have hcnt : ∀ k, (incFloats Model.incFloat (incParams O (incVars O m0 c.vars varAddrs) c.params paramAddrs)
+      c.floats).1.cnt k = m.cnt k + mc (c.vars, c.params, c.floats) k := by
+    intro k
+    rw [hc3 k, hc2 k, hc1 k]
+    simp only [mc, refKeys, List.count_append]
+    show m.cnt k + _ + _ + _ = _
+    omega
+  simp only [Model.register]
+  rw [hpair]
+  refine ⟨rfl, hb3, hcnt, ?_⟩
+  show (c.id, (c.vars, c.params, c.floats)) :: _ = _
+  rw [hr3, hr2, hr1]
+
+theorem remove_inv (m : Model α) (id : Nat) (hi : Inv m) : Inv (m.remove O id).1 := by
+  unfold Model.remove
+  cases hl : m.conMap.lookup id with
+  | none => exact hi
+  | some p =>
+    obtain ⟨addr, isIf⟩ := p
+    simp only
+    cases hr : m.referenced.lookup id with
+    | none => exact ⟨hi.bal, hi.counts, hi.ids⟩
+    | some e =>
+      obtain ⟨vs, ps, fs⟩ := e
+      simp only
+      -- the model after the evaluator / conMap update has the same bookkeeping views
+      let m0 : Model α := { m with ev := if isIf then m.ev.removeIfCon addr else m.ev.removeCon addr,
+                                   conMap := m.conMap.filter (fun p => p.1 != id) }
+      have hb0 : Bal m0 := hi.bal
+      have hle : ∀ k, mc (vs, ps, fs) k ≤ m.cnt k := by
+        intro k
+        have := refsOf_filter m.referenced id (vs, ps, fs) hi.ids hr k
+        rw [hi.counts k]; omega
+      have hmc : ∀ k, mc (vs, ps, fs) k = (vs.map LeafKey.var).count k + (ps.map LeafKey.param).count k +
+          (fs.map LeafKey.flt).count k := by
+        intro k; simp only [mc, refKeys, List.count_append]
+      let m1 : Model α := vs.foldl (fun m v => m.decVar O v) m0
+      let m2 : Model α := ps.foldl (fun m v => m.decParam O v) m1
+      let m3 : Model α := fs.foldl (fun m v => m.decFloat v) m2
+      have hcnt0 : ∀ k, m0.cnt k = m.cnt k := fun _ => rfl
+      obtain ⟨hb1, hc1, hr1, _⟩ := foldl_dec LeafKey.var (fun m v => m.decVar O v)
+        (fun m i => decVar_spec O m i) vs m0 hb0 (fun k => by
+          have := hle k; rw [hmc k] at this; rw [hcnt0 k]; omega)
+      obtain ⟨hb2, hc2, hr2, _⟩ := foldl_dec LeafKey.param (fun m v => m.decParam O v)
+        (fun m i => decParam_spec O m i) ps m1 hb1 (fun k => by
+          have := hle k; rw [hmc k] at this; rw [hc1 k, hcnt0 k]; omega)
+      obtain ⟨hb3, hc3, hr3, _⟩ := foldl_dec LeafKey.flt (fun m v => m.decFloat v)
+        (fun m i => decFloat_spec m i) fs m2 hb2 (fun k => by
+          have := hle k; rw [hmc k] at this; rw [hc2 k, hc1 k, hcnt0 k]; omega)
+      have hrefd : m3.referenced = m.referenced := by rw [hr3, hr2, hr1]
+      refine ⟨hb3, ?_, ?_⟩
+      · intro k
+        change m3.cnt k = refsOf (m3.referenced.filter (fun p => p.1 != id)) k
+        rw [hc3 k, hc2 k, hc1 k, hcnt0 k, hrefd]
+        have h1 := refsOf_filter m.referenced id (vs, ps, fs) hi.ids hr k
+        have h2 := hi.counts k
+        have h3 := hmc k
+        omega
+      · change ((m3.referenced.filter (fun p => p.1 != id)).map (·.1)).Nodup
+        rw [hrefd]
+        exact hi.ids.sublist ((List.filter_sublist).map _)
+
+end Ops
 
 end Wntr.Aml
